@@ -81,9 +81,11 @@ type input struct {
 	PathType  string            `json:"path_type,omitempty"`
 	Services  []string          `json:"services,omitempty"`
 	Ingresses []ingIn           `json:"ingresses,omitempty"`
-	UBackends []ubackend        `json:"backends,omitempty"`          // updater kind, see updater.go
-	Calls     []call            `json:"calls,omitempty"`             // updater kind
-	PassHosts []string          `json:"passthrough_hosts,omitempty"` // updater kind: ssl-passthrough hosts
+	UBackends []ubackend        `json:"backends,omitempty"`                 // updater kind, see updater.go
+	Calls     []call            `json:"calls,omitempty"`                    // updater kind
+	PassHosts []string          `json:"passthrough_hosts,omitempty"`        // updater kind: ssl-passthrough hosts
+	CrossNS   bool              `json:"cross_namespace_services,omitempty"` // DynamicConfig.CrossNamespaceServices
+	Redirects []upath           `json:"redirect_paths,omitempty"`           // updater kind: redirect-only host paths (no backend)
 }
 
 const (
@@ -351,6 +353,15 @@ func genPipeline(rng *rand.Rand) input {
 			in.Ingresses = append(in.Ingresses, ingIn{Namespace: oauthNS, Name: "ingoauth", Rules: []c1819.Rule{{Host: host, Path: prefix, Service: "oauth2proxy", Port: 8080}}})
 		}
 	}
+	if oauthSeen && rng.Intn(4) == 0 {
+		// the oauth prefix exists as a redirect-only path (redirect-to: a host path without
+		// backend), on a host sorted before the others
+		in.CrossNS = rng.Intn(2) == 0
+		in.Ingresses = append(in.Ingresses, ingIn{Namespace: oauthNS, Name: "ingredir", Ann: map[string]string{"redirect-to": "http://other.example/x"},
+			Rules: []c1819.Rule{{Host: "a0.local", Path: pick(rng, []string{"/oauth2", "/auth2"}), Service: "app2", Port: 8080}}})
+	} else if rng.Intn(6) == 0 {
+		in.CrossNS = true
+	}
 	if rng.Intn(3) == 0 { // authsvc exposed too (makes svc:// urls resolvable without the pre-build)
 		in.Ingresses = append(in.Ingresses, ingIn{Name: "ingauthsvc", Rules: []c1819.Rule{{Host: "auth.local", Path: "/", Service: "authsvc", Port: 8080}}})
 	}
@@ -431,6 +442,11 @@ func corpus() []input {
 		{Kind: "pipeline", PathType: "Prefix", Global: map[string]string{"auth-proxy": "_front__auth__local:14415-14415"}, Services: svcs, Ingresses: []ingIn{
 			{Namespace: "team-a", Name: "ing1", Ann: annOf(kURL, "http://10.0.0.1/auth"), Rules: r("a.example", "/", "app1")},
 			{Namespace: "team-b", Name: "ing2", Step: 1, Ann: annOf(kURL, "http://10.0.0.2/auth"), Rules: r("b.example", "/", "app2")}}},
+		// the oauth prefix only exists as a redirect-to path (no backend), cross namespace allowed
+		{Kind: "pipeline", PathType: "Prefix", CrossNS: true, Services: svcs, Ingresses: []ingIn{
+			{Name: "ing1", Ann: annOf(kOAuth, "oauth2_proxy"), Rules: r("h1.local", "/", "app1")},
+			{Name: "ing2", Rules: r("h1.local", "/pub", "app1")},
+			{Name: "ingredir", Ann: annOf("redirect-to", "http://other.example/x"), Rules: r("a0.local", "/oauth2", "app2")}}},
 		// empty auth-proxy range
 		{Kind: "pipeline", PathType: "Prefix", Global: map[string]string{"auth-proxy": "_front__auth__local:14420-14410"}, Services: svcs, Ingresses: []ingIn{
 			{Name: "ing1", Ann: annOf(kURL, "http://10.0.0.2:8000/auth"), Rules: r("h1.local", "/app", "app1")}}},
@@ -497,6 +513,7 @@ func runPipeline(in input, scratch string, judge func(step int, sub input, obs *
 	if err != nil {
 		panic(err)
 	}
+	p.Options.DynamicConfig.CrossNamespaceServices = in.CrossNS
 	for _, ns := range namespacesOf(in) {
 		for i, s := range in.Services {
 			if s == "authsvc" {
